@@ -573,7 +573,7 @@ func runCheck(id, tier, repo, keep string, writeEvidence bool) int {
 		}
 		trusted := []string{"go/packages + go/types + go/ssa (x/tools v0.29.0) produce SSA faithful to the compiler", "govc SSA-to-SMT translation (/verif/govc)", "z3 4.8.12 / z3 5.1.0 / cvc5 1.0 unsat answers"}
 		assumptions := append([]string(nil), ps.Assumptions...)
-		assumptions = append(assumptions, "float64 arithmetic treated as exact real arithmetic (no rounding, NaN or Inf)", "int arithmetic is mathematical; overflow is checked only where a contract opts in (opt overflow)")
+		assumptions = append(assumptions, "float64 arithmetic treated as exact real arithmetic (no rounding, NaN or Inf)", "64-bit int / uint arithmetic and byte / rune arithmetic are mathematical; their overflow is checked only where a contract opts in (opt overflow). Arithmetic on every other integer type narrower than 64 bits is an obligation everywhere (safety[narrow-overflow])")
 		for k := range assumedUsed {
 			assumptions = append(assumptions, "assumed contract: "+k)
 		}
